@@ -79,6 +79,8 @@ vector<double> NumCalcApplicationTools::getVector(const std::string& desc)
     if (keyvals.find("step") != keyvals.end())
     {
       double step = TextTools::toDouble(keyvals["step"]);
+      if (!(step > 0))
+        throw Exception("Unvalid sequence specification, 'step' must be positive: " + desc);
       for (double x = start; x <= end + NumConstants::TINY(); x += step)
       {
         double y;
